@@ -70,6 +70,17 @@ CLAIMED["C12"] = dict(
          "Alignment/null checks and arithmetic overflow are not part of this property's obligations.",
     technique="static analysis: abstract interpretation (symbolic intervals, residue split) over rustc MIR + structural encapsulation rules")
 
+CLAIMED["C11"] = dict(
+    cat="other", ref="DESIGN.md §3 C11",
+    text="Decides gating, coverage and dispatch of the bulk kernels, not the semantics of individual SIMD instructions: "
+         "R1 every call of a #[target_feature] kernel or core::arch intrinsic happens where the features are available "
+         "(own attributes or a dominating successful runtime detection, closed under rustc's implication table); "
+         "R2 for all 64 residues of len mod 64 every kernel writes each byte of [0,len) exactly once with stride = access width "
+         "and reads its second operand at the same positions; R4 every dispatcher falls back to a portable kernel and passes its own operands.",
+    note="x86_64 instantiation only. The per-instruction data-flow templates (R3) are a separate rule; until it is armed the value computed "
+         "by a vector instruction sequence is not decided.",
+    technique="static analysis: interprocedural feature-availability dataflow + abstract interpretation (exact affine offsets, residue split) over rustc MIR")
+
 NOT_APPLICABLE = {
     "C03": "probability over random erasure patterns; no clause of it is visible in the shape of the code",
     "C06": "invertibility of 477 concrete matrices and plan-replay equality are run-time linear algebra; no sound structural proxy",
